@@ -240,7 +240,47 @@ def t_config_scalar(k):
     return {"prec": "f32", "cfg": True, "callees": [sett], "main": main}
 
 
-TEMPLATES = [t_window_on_alloc, t_config_fields, t_control_divmod, t_window_of_alloc, t_else_then_more, t_dependent_alloc, t_rmw_prefix, t_triangular_alloc, t_reduce_beyond, t_config_chain, t_maybe_zero_bound, t_masked_callee, t_config_scalar]
+def t_same_name_inline(k):
+    """callee whose loop iterator has the caller's iterator name and which receives the caller's
+    iterator as an index argument: after inline two distinct variables called `i` meet in one
+    index expression with equal coefficients"""
+    off = k % 3
+    sub = {
+        "name": "shift4",
+        "args": [_arg("k", "index", range=(0, 8)), _arg("dst", "window", dims=["4"], written=True), _arg("src", "window", dims=["16"], written=False)],
+        "preds": ["k >= 0 and k <= 8"],
+        "body": [["for", "i", "0", "4", [["assign", "dst", ["i"], f"src[i + k + {off}] + src[k + i + {off + 1}]"]], "seq"]],
+    }
+    body = [
+        ["for", "i", "0", "3", [
+            ["call", "shift4", ["i", "y[4 * i:4 * i + 4]", "x[0:16]"]],
+            ["for", "j", "0", "2", [["for", "j", "0", "2", [["reduce", "y", ["12 + j"], "x[i + j]"]], "seq"]], "seq"],
+        ], "seq"],
+    ]
+    main = {"name": "foo", "args": [_arg("x", "tensor", dims=["16"]), _arg("y", "tensor", dims=["16"])], "preds": [], "body": body}
+    return {"prec": "f32", "cfg": False, "callees": [sub], "main": main}
+
+
+def t_externs(k):
+    """the same externs (relu, select, ...) used at different precisions by two procedures that end
+    up in one compilation unit (the helper procedure is defined next to foo, not called by it)"""
+    p2 = ["f64", "i8", "i32", "f64"][k % 4]
+    e2 = "relu(src[i])" if p2 != "f64" else "relu(src[i]) + select(src[i], dst[i], src[i], dst[i]) + sin(src[i])"
+    aux = {
+        "name": "aux",
+        "args": [_arg("dst", "tensor", prec=p2, dims=["8"], written=True), _arg("src", "tensor", prec=p2, dims=["8"], written=False)],
+        "preds": [],
+        "body": [["for", "i", "0", "8", [["assign", "dst", ["i"], e2]], "seq"]],
+    }
+    body = [
+        ["for", "i", "0", "8", [["assign", "y", ["i"], "relu(x[i]) + select(x[i], y[i], x[i], 2.0)"]], "seq"],
+        ["for", "i", "0", "8", [["reduce", "y", ["i"], "sin(x[i]) + fmaxf(x[i], y[i])"]], "seq"],
+    ]
+    main = {"name": "foo", "args": [_arg("x", "tensor", dims=["8"]), _arg("y", "tensor", dims=["8"])], "preds": [], "body": body}
+    return {"prec": "f32", "cfg": False, "callees": [aux], "main": main}
+
+
+TEMPLATES = [t_window_on_alloc, t_config_fields, t_control_divmod, t_window_of_alloc, t_else_then_more, t_dependent_alloc, t_rmw_prefix, t_triangular_alloc, t_reduce_beyond, t_config_chain, t_maybe_zero_bound, t_masked_callee, t_config_scalar, t_same_name_inline, t_externs]
 
 
 def templates():
